@@ -34,10 +34,11 @@ const (
 	opInsertWatch
 	opOneShot
 	opWatchAll
+	opAllWrite // Txn.All with writes through the same transaction from inside the loop body
 	numOps
 )
 
-var opNames = []string{"begin", "insert", "modify", "delete", "insertRange", "deleteRange", "read", "clone", "iter", "commit", "abandon", "watch", "insertWatch", "oneShot", "watchAll"}
+var opNames = []string{"begin", "insert", "modify", "delete", "insertRange", "deleteRange", "read", "clone", "iter", "commit", "abandon", "watch", "insertWatch", "oneShot", "watchAll", "allWrite"}
 
 type Op struct {
 	K   int    `json:"k"`
@@ -715,6 +716,33 @@ func runTree(c TreeCase, own string) (res result) {
 			}
 			in.iters = append(in.iters, &retainedIter{it: it, want: want, origin: fmt.Sprintf("iterator kind %d at step %d (in txn: %v)", o.Val%3, step, in.tx != nil)})
 			in.res.classes = append(in.res.classes, "iter_retained")
+		case opAllWrite:
+			if in.tx != nil {
+				// the loop visits the contents the transaction had when All was
+				// called, whatever the loop body writes through the transaction
+				want := in.txModel.sorted()
+				var got []kv
+				at := 0
+				if len(want) > 0 {
+					at = ((o.B % len(want)) + len(want)) % len(want)
+				}
+				in.tx.All(func(k []byte, v int) bool {
+					got = append(got, kv{string(k), v})
+					if len(got)-1 >= at && err == nil {
+						if o.A%2 == 0 {
+							err = in.doDelete(bytes.Clone(k))
+						}
+						if err == nil {
+							err = in.doInsert(o.Key, o.Val, false, false)
+						}
+					}
+					return err == nil
+				})
+				if err == nil && !eqKV(got, want) {
+					err = in.failf("C11", "iterate", "step %d: Txn.All with writes from inside the loop visited %s, the transaction held %s when the loop started", step, showKV(got), showKV(want))
+				}
+				in.res.classes = append(in.res.classes, "all_with_writes")
+			}
 		case opCommit:
 			if in.tx != nil {
 				err = in.finishTxn(((o.A%2)+2)%2, step)
@@ -894,7 +922,7 @@ func genTreeCase(t *rapid.T) TreeCase {
 		// merges and shift-ups on delete
 		keyGen = rapid.SampledFrom(wordKeys)
 	}
-	weights := []int{opBegin, opInsert, opInsert, opInsert, opModify, opDelete, opDelete, opRead, opRead, opClone, opIter, opCommit, opCommit, opAbandon, opWatch, opWatch, opInsertWatch, opOneShot}
+	weights := []int{opBegin, opInsert, opInsert, opInsert, opModify, opDelete, opDelete, opRead, opRead, opClone, opIter, opCommit, opCommit, opAbandon, opWatch, opWatch, opInsertWatch, opOneShot, opAllWrite}
 	if dist == 2 {
 		// long write-only transactions (reads would bump the txnID and mask
 		// in-place mutation paths), with channels collected up front
@@ -922,6 +950,11 @@ func genTreeCase(t *rapid.T) TreeCase {
 			o.B = rapid.IntRange(0, 1).Draw(t, "modify")
 		case opDelete, opWatch:
 			o.Key = keyGen.Draw(t, "key")
+		case opAllWrite:
+			o.Key = keyGen.Draw(t, "key")
+			o.Val = rapid.IntRange(0, 99).Draw(t, "val")
+			o.A = rapid.IntRange(0, 1).Draw(t, "deleteVisited")
+			o.B = rapid.IntRange(0, 5).Draw(t, "from")
 		case opRead:
 			o.Key = keyGen.Draw(t, "key")
 			o.A = rapid.IntRange(0, 7).Draw(t, "ver")
